@@ -126,9 +126,14 @@ pub fn gen_defs(r: &mut Rng) -> Vec<Def> {
         let hi_limit = (((fb as u32) + 1) << (8 * (len as u32 - 1))).wrapping_sub(1).min(max_code(len));
         let kind = r.below(10);
         // start near an existing definition half of the time: adjacency and overlap
+        // (a neighbour now and then repeats the earlier definition's destination: the same ligature on adjacent codes)
+        let mut reuse: Option<(Target, u32)> = None;
         let mut lo = if !defs.is_empty() && r.bool() {
             let d = r.pick(&defs).clone();
             if d.len == len {
+                if r.chance(1, 3) {
+                    reuse = Some((d.target.clone(), d.hi - d.lo));
+                }
                 match r.below(4) {
                     0 => d.hi.saturating_add(1),
                     1 => d.lo.saturating_sub(r.below(4) as u32),
@@ -142,6 +147,21 @@ pub fn gen_defs(r: &mut Rng) -> Vec<Def> {
             random_code(r, len)
         };
         lo = lo.clamp(lo_limit, hi_limit);
+        if let Some((t, room)) = reuse {
+            match t {
+                Target::Single(t) => {
+                    let span = if r.bool() { 0 } else { r.below(room as u64 + 1) as u32 };
+                    let hi = lo.saturating_add(span).min(hi_limit).min(lo | 0xFF);
+                    defs.push(Def { len, lo, hi, target: Target::Single(t), as_char: hi == lo && r.bool() });
+                }
+                Target::Array(a) => {
+                    let hi = lo.saturating_add(a.len() as u32 - 1).min(hi_limit).min(lo | 0xFF);
+                    let a: Vec<Vec<u16>> = a[..(hi - lo + 1) as usize].to_vec();
+                    defs.push(Def { len, lo, hi, target: Target::Array(a), as_char: false });
+                }
+            }
+            continue;
+        }
         if kind < 4 {
             defs.push(Def { len, lo, hi: lo, target: Target::Single(random_target(r, 0)), as_char: true });
         } else if kind < 8 {
